@@ -158,3 +158,15 @@ HARN(h_tryrdlock, fiber_rwlock_tryrdlock, PRE_mode(IDLE), POST_try(r, RD), "tryr
 HARN(h_trywrlock, fiber_rwlock_trywrlock, PRE_mode(IDLE), POST_try(r, WR), "trywrlock never waits; succeeds only on a completely free lock")
 HARN(h_rdunlock, fiber_rwlock_rdunlock, PRE_mode(RD), POST_unlock(r), "rdunlock: one release; grants exactly one writer or all waiting readers and wakes exactly those")
 HARN(h_wrunlock, fiber_rwlock_wrunlock, PRE_mode(WR), POST_unlock(r), "wrunlock: one release; grants exactly one writer or all waiting readers and wakes exactly those")
+/* init: from ANY memory content (a lock placed in recycled memory) the initialiser establishes the state every proof above starts from */
+/* Allocation failure is NOT explored here (--no-malloc-may-fail): when the first queue's allocation fails, fiber_rwlock_init calls
+ * mpsc_fifo_destroy on the second queue, which it never initialised - in dirty memory that walks and frees a garbage list.  No listed property
+ * speaks about a failed init, so this is recorded as an observation in DESIGN.md 11.5, not as a finding of C07. */
+void h_init(void) {
+  static fiber_rwlock_t X; memset(&X, (int)verif_u64(), sizeof(X));
+  int r = fiber_rwlock_init(&X);
+  if (r == FIBER_SUCCESS) VASSERT(X.state.blob == 0 && (X.write_waiters.head != 0 && X.write_waiters.head == X.write_waiters.tail && X.write_waiters.head->next == 0) && (X.read_waiters.head != 0 && X.read_waiters.head == X.read_waiters.tail && X.read_waiters.head->next == 0),
+                                  "H: C07 init: nobody holds the lock and NOBODY IS COUNTED AS WAITING (the whole state word is 0), both wait queues empty and usable, whatever the memory held");
+  else VASSERT(0, "H: C07 init succeeds when its allocations do");
+  VCANARY("init can return");
+}
